@@ -2,36 +2,35 @@
   C16 - "Nodes declared concurrently readable really are": property theorems.
 
   Setting.  One shared `ast.Node` obtained with ConcurrentRead / NewRawConcurrentRead (raw text,
-  own RWMutex) is read by any number of goroutines.  Thread programs are NOT written by hand:
-  `RW.progOf Generated.Access.access fn` compiles the ordered list of atomic operations, mutex
-  calls and plain field accesses that `go/factx_access` re-reads from ast/node.go, ast/encode.go,
-  ast/parser.go on every run (calls inlined, deferred calls placed at every exit, data-dependent
-  branches resolved by a per-thread oracle).  Executions are arbitrary schedules (`List Nat`) of
-  single field reads/writes, atomic operations on `t` and mutex operations (`RW.step`).
+  own RWMutex) - or on which Load/LoadAll has returned - is read by any number of goroutines.
+  Thread programs are NOT written by hand: `RW.progOf Generated.Access.access fn` compiles the
+  ordered list of atomic operations, mutex calls and plain accesses (fields t/l/p/m of the node and
+  `c` = the memory behind `p`: children container, hash index, child slots) that
+  `go/factx_access` re-reads from ast/{node,encode,parser,buffer,…}.go on every run (calls inlined -
+  also into linkedNodes/linkedPairs -, deferred calls placed at every exit, data-dependent branches
+  resolved by a per-thread oracle).  Executions are arbitrary schedules (`List Nat`) of single
+  accesses, atomic operations on `t` and mutex operations (`RW.step`).
 
-  * a data race = two accesses to the same plain field by different threads, one a write, not
+  * a data race = two accesses to the same location class by different threads, one a write, not
     both atomic, the earlier one not happening-before the later one (`RW.races`; happens-before
     = program order + Unlock/RUnlock → Lock, Unlock → RLock, release-store of t → acquire-load);
   * a torn read = a view `(t, l, p)` whose parts are of different generations (`RW.Th.torn`).
 
-  What is proved about ALL programs that pass the static discipline `RW.safe` (any number of
-  threads, all schedules, all oracles): no data race, no torn read, every snapshot is the one a
-  single-threaded run sees before or after the conversion; and - by kernel evaluation over the
-  regenerated facts - that every documented read operation passes the discipline, EXCEPT
-  `Node.MarshalJSON`, whose pinned source reads `(p,l)` after an unlocked `isRaw()`: for that
-  program the statement is false (concrete 2-thread schedule below, replayed on the real code by
-  the `-race` harness), and true again for the repaired program (read lock as in `Raw()`).
-
-  `pf` = "the node's own parser rejects the text".  The three statements are proved for every
-  `pf`; the regenerated programs pass the discipline for `pf = false`.  For `pf = true` (a text the
-  skipper accepted and the parser rejects) the pinned parseRaw overwrites the whole node including
-  its mutex pointer (`*self = *newSyntaxError(..)`): negation proved below (`parse_failure_*`), and the
-  full statement for the repaired parseRaw (`both_repairs_all_documents`).
-  Assumption A1 (tied by `children_*` below only syntactically): the value `assign` publishes is
-  never lazy, its container children are raw nodes with their own mutex; each child is another
-  instance of this same protocol, published by the parent's release-store.
+  HEADLINE (section 2): every documented read operation INCLUDING MarshalJSON, as regenerated from
+  the current tree, passes the static discipline `RW.safe` - for texts the node's parser accepts
+  (`pf = false`) and for texts it rejects (`pf = true`) - hence (section 1, proved for ALL
+  disciplined programs, any number of threads, all schedules, all oracles): no data race, no torn
+  read, every snapshot is one a single-threaded run sees, nothing is written once the conversion
+  has been published.  Section 3: children - the parser creates them (and their container) under
+  the parent's write lock before the release-store of `t`; nothing reaches them earlier; what it
+  creates under `noLazy = loadOnce = true` are raw children with their own mutex and never a lazy
+  node (assumption A1 of the first version, now a regenerated fact): every child starts as another
+  instance of this same protocol.  Section 4: the PRE-FIX REGRESSION section - the two defects the
+  pinned snapshot had (MarshalJSON's unlocked fast path, parseRaw's error path), as negations on
+  the pinned event lists; a revert of either repair breaks section 2.
 -/
 import SonicSpec.Proofs.RWThm
+import SonicSpec.Model.RWParse
 import SonicSpec.Generated.Access
 namespace SonicSpec.Props.C16
 open SonicSpec SonicSpec.RW
@@ -41,7 +40,7 @@ abbrev facts : RawTable := Generated.Access.access
 /-- a system of disciplined threads: thread `i` runs program `ps[i].1` with oracle `ps[i].2` -/
 def Disciplined (pf : Bool) (ps : List (Prog × List Bool)) : Prop := ∀ p ∈ ps, safe pf Abs.init p.1 = true
 
-/-! ## the three statements, for every system of disciplined threads and every schedule -/
+/-! ## 1. the statements, for every system of disciplined threads and every schedule -/
 
 /-- F.  No torn read: in every reachable state every thread's view is consistent - a reader that
     observed `t` non-raw reads `(l,p)` of the generation of that `t` (the parsed representation),
@@ -100,7 +99,7 @@ theorem lock_and_state_shape (pf : Bool) (ps : List (Prog × List Bool)) (hs : D
   refine ⟨hG.excl, hG.noerr, hG.m, hG.gParsed, ?_⟩
   intro ht hw
   obtain ⟨h1, h2, h3⟩ := hG.gRaw ht
-  obtain ⟨e1, e2⟩ := hG.wfree hw
+  obtain ⟨e1, e2, _⟩ := hG.wfree hw
   rw [e1] at h2; rw [e2] at h3
   exact ⟨h1, h2, h3⟩
 
@@ -118,12 +117,23 @@ theorem loaded_node_safe (pf : Bool) (ps : List (Prog × List Bool)) (hs : Disci
   · left; rw [h1, h2, h3]; rfl
   · right; rw [h1, h2, h3]; rfl
 
-/-! ## the tie: the documented read operations, as regenerated from the source, are disciplined -/
+/-- F.  Nothing is written after publication: once the type word is non-raw, no step of any
+    disciplined thread writes a field of the node or the memory behind `p` (container, hash index,
+    child slots) - the documented reads are reads of the published structure -/
+theorem no_write_after_publication (pf : Bool) (ps : List (Prog × List Bool)) (hs : Disciplined pf ps)
+    (sched : List Nat) (i : Nat) :
+    let s := run pf (State.init ps) sched
+    s.sh.t ≠ .raw → (step pf s i).sh.hist.filter (·.wr) = s.sh.hist.filter (·.wr) :=
+  fun ht => writes_only_while_raw (inv_reachable (pf := pf) ps hs sched) ht i
 
-/-- the documented read operations (ast/search.go:33, ast/node.go:1843) and the helpers the API
-    offers beside them; `MarshalJSON` is treated separately below -/
+/-! ## 2. HEADLINE: the documented read operations of the current tree -/
+
+/-- the documented read operations (ast/search.go:33, ast/node.go:1843: GetByPath/Get/Index/
+    GetOrIndex/Int64/Bool/Float64/String/Number/Interface/Array/Map/Raw/MarshalJSON) and the
+    helpers the API offers beside them -/
 def documentedReads : List String :=
-  [ "Get", "Index", "GetByPath", "IndexPair", "IndexOrGet", "IndexOrGetWithIdx",
+  [ "MarshalJSON",
+    "Get", "Index", "GetByPath", "IndexPair", "IndexOrGet", "IndexOrGetWithIdx",
     "Bool", "Int64", "StrictInt64", "Number", "StrictNumber", "String", "StrictString",
     "Float64", "StrictFloat64", "StrictBool",
     "Interface", "InterfaceUseNumber", "InterfaceUseNode",
@@ -132,13 +142,15 @@ def documentedReads : List String :=
     "checkRaw", "should", "encode", "encodeRaw" ]
 
 set_option maxRecDepth 100000 in
-/-- PARTIAL (everything except MarshalJSON): each documented read operation, compiled from the
-    facts regenerated from the current source, passes the access discipline - so the three
-    statements above hold for any number of goroutines running any mix of them. -/
-theorem documented_reads_disciplined_partial :
-    documentedReads.all (fun fn => disciplinedAt false facts fn) = true := by decide +kernel
+/-- every documented read, compiled from the facts regenerated from the current source - calls
+    followed into the children containers - passes the access discipline, whether the node's
+    parser accepts the text or not.  (False on the pinned snapshot: section 4.) -/
+theorem all_documented_reads_disciplined :
+    documentedReads.all (fun fn => disciplinedAt false facts fn) = true ∧
+    documentedReads.all (fun fn => disciplinedAt true facts fn) = true := by
+  decide +kernel
 
-/-- from "every listed function is disciplined" to the three statements for any mix of them -/
+/-- from "every listed function is disciplined" to the statements for any mix of them -/
 theorem mix_safe (pf : Bool) (tbl : RawTable) (names : List String)
     (hall : names.all (fun fn => disciplinedAt pf tbl fn) = true)
     (fns : List (String × List Bool)) (hf : ∀ f ∈ fns, f.1 ∈ names) (sched : List Nat) :
@@ -159,19 +171,64 @@ theorem mix_safe (pf : Bool) (tbl : RawTable) (names : List String)
   exact ⟨no_data_race pf ps hs sched, fun th hth => (no_torn_read pf ps hs sched th hth).1,
          readers_agree_with_sequential pf ps hs sched⟩
 
-/-- PARTIAL consequence, spelled out: any mix of the documented reads EXCEPT MarshalJSON on one
-    shared node whose text the parser accepts, any number of goroutines, any schedule: no race,
-    no torn read, only single-threaded snapshots -/
-theorem documented_reads_safe_partial (fns : List (String × List Bool))
+/-- F (the property, on the current tree): ALL documents (accepted by the node's parser or not),
+    any mix of ALL documented reads incl. MarshalJSON on one shared node, any number of goroutines,
+    all schedules: no data race, no torn read, every snapshot is a single-threaded one -/
+theorem all_reads_all_documents (pf : Bool) (fns : List (String × List Bool))
     (hf : ∀ f ∈ fns, f.1 ∈ documentedReads) (sched : List Nat) :
     let ps := fns.map fun f => ((progOf facts f.1).getD .done, f.2)
-    (run false (State.init ps) sched).sh.race = false ∧
-    (∀ th ∈ (run false (State.init ps) sched).ths, th.torn = false) ∧
-    (∀ th ∈ (run false (State.init ps) sched).ths, ∀ v g a b,
-      th.tv = some (v, g) → th.lg = some a → th.pg = some b → (v, a, b) = seqRaw ∨ (v, a, b) = seqParsed) :=
-  mix_safe false facts documentedReads documented_reads_disciplined_partial fns hf sched
+    (run pf (State.init ps) sched).sh.race = false ∧
+    (∀ th ∈ (run pf (State.init ps) sched).ths, th.torn = false) ∧
+    (∀ th ∈ (run pf (State.init ps) sched).ths, ∀ v g a b,
+      th.tv = some (v, g) → th.lg = some a → th.pg = some b → (v, a, b) = seqRaw ∨ (v, a, b) = seqParsed) := by
+  cases pf
+  · exact mix_safe false facts _ all_documented_reads_disciplined.1 fns hf sched
+  · exact mix_safe true facts _ all_documented_reads_disciplined.2 fns hf sched
 
-/-! ## MarshalJSON: pinned source fails, repaired source passes -/
+/-! ## 3. children and lazy nodes -/
+
+/-- COMPOSITION.  In every reachable state of a disciplined system: while `t` is raw, every write
+    so far (node fields and the memory behind `p`: container, index, child slots, i.e. the creation
+    of the children) was made by the thread that holds the node's write lock NOW; once `t` is non-raw
+    every such write is in the set published by the release-store of `t`.  With `no_data_race`
+    (which covers the memory behind `p`: every read of it by another thread has those writes in its
+    happens-before set) and `no_write_after_publication`: a child is created under the parent's
+    write lock, is reachable only after the parent's release-store, and all of its initial state -
+    raw text, own mutex - happens-before every access to it: each child starts exactly like
+    `State.init`, i.e. is a further instance of the system these theorems are about. -/
+theorem children_created_under_lock_published_by_store (pf : Bool) (ps : List (Prog × List Bool))
+    (hs : Disciplined pf ps) (sched : List Nat) :
+    let sh := (run pf (State.init ps) sched).sh
+    (sh.t = .raw → ∀ a ∈ sh.hist, a.wr = true → sh.w = some a.tid) ∧
+    (sh.t ≠ .raw → ∀ a ∈ sh.hist, a.wr = true → a.id ∈ sh.relT) := by
+  have hG := (inv_reachable (pf := pf) ps hs sched).1
+  exact ⟨fun ht a ha hw => (hG.wrBy ht a ha hw).1, fun ht a ha hw => hG.hbT ht a ha hw⟩
+
+set_option maxRecDepth 100000 in
+/-- A1 as a regenerated fact.  parseRaw converts a lockable node with `noLazy = loadOnce = true`;
+    started with these flags `Parser.Parse` (through decodeArray/decodeObject and back, all branches
+    other than the flag tests explored both ways) constructs only `newRawNode(_, _, true)` children -
+    raw, with their own mutex - and never a lazy node; at its own level it constructs neither (the
+    value handed to assign is a scalar or a fully decoded container); `newRawNode` allocates the
+    mutex exactly when asked to. -/
+theorem parser_builds_locked_raw_children_never_lazy :
+    parserConstructs facts "Parse" ⟨true, true, false⟩ = some [.newRaw .tru] ∧
+    parserConstructsHere facts "Parse" ⟨true, true, false⟩ = some [] ∧
+    facts.lookup "newRawNode" = some [.ifB .param false, .mkMutex, .ifE, .ret] ∧
+    (facts.lookup "NewRawConcurrentRead").map constructions = some [.newRaw .tru] := by
+  decide +kernel
+
+/-- the lock branch of parseRaw: sets both flags, parses (building the children), publishes through
+    assign (also the error node), returns; assign = l, p, then the atomic store of t -/
+theorem parseRaw_lock_branch :
+    (facts.lookup "parseRaw").map (fun evs => evs.filter fun e =>
+        match e with | .pset _ _ | .parse | .call "assign" _ | .wrAll | .ifB .lockVar _ | .ifB .parseErr _ => true | _ => false) =
+      some [.pset "noLazy" true, .parse, .wrAll, .ifB .lockVar false, .pset "noLazy" true, .pset "loadOnce" true,
+            .parse, .ifB .parseErr false, .call "assign" .none, .parse, .wrAll, .ifB .parseErr false, .wrAll] ∧
+    facts.lookup "assign" = some [.wr .l, .wr .p, .astore .t] := by
+  decide +kernel
+
+/-! ## 4. PRE-FIX REGRESSION: the pinned snapshot (before 45c02e9 / 7073139) -/
 
 /-- ast/encode.go:94 as pinned: `if self.isRaw() { return rt.Str2Mem(self.toString()), nil }` -/
 def marshalPinned : List Ev :=
@@ -179,28 +236,15 @@ def marshalPinned : List Ev :=
    .ret, .ifE, .call "encode" .none, .ifB .opaque false, .ret, .ifE,
    .ifB .opaque false, .els, .ifE, .ret]
 
-/-- the repaired fast path (patches/C16-marshal-rlock.diff): take the read lock as `Raw()` does and
-    re-check `isRaw()` under it -/
-def marshalRepaired : List Ev :=
-  [.ifB .selfNil false, .ret, .ifE, .call "isRaw" .none, .ifB .raw false, .callSet "rlock" .none,
-   .call "isRaw" .none, .ifB .raw false, .call "toString" .none, .ifB .lockVar false, .call "runlock" .none, .ifE,
-   .ret, .ifE, .ifB .lockVar false, .call "runlock" .none, .ifE, .ifE,
-   .call "encode" .none, .ifB .opaque false, .ret, .ifE, .ifB .opaque false, .els,
-   .ifE, .ret]
-
-def factsPinned : RawTable := override facts "MarshalJSON" marshalPinned
-def factsRepaired : RawTable := override facts "MarshalJSON" marshalRepaired
-
 /-- ast/node.go:2013 parseRaw as pinned: on a parse error `*self = *newSyntaxError(..)` (last events) -/
 def parseRawPinned : List Ev :=
   [.callSet "lock" .none, .deferCall "unlock", .call "isRaw" .none, .ifB .raw true, .ret, .ifE,
-   .call "toString" .none, .ifB .param false, .pset "noLazy" true, .wrAll, .els, .ifB .lockVar false,
-   .pset "noLazy" true, .pset "loadOnce" true, .call "assign" .none, .els, .wrAll, .ifE,
+   .call "toString" .none, .ifB .param false, .pset "noLazy" true, .parse, .wrAll, .els, .ifB .lockVar false,
+   .pset "noLazy" true, .pset "loadOnce" true, .parse, .call "assign" .none, .els, .parse, .wrAll, .ifE,
    .ifE, .ifB .parseErr false, .wrAll, .ifE]
 
-/-- the synchronisation core exactly as in the pinned source (ast/node.go, ast/parser.go,
-    ast/encode.go); the negation witnesses below run on THIS table, so they stay true whatever the
-    current tree looks like -/
+/-- the synchronisation core exactly as in the pinned source; the negation witnesses run on THIS
+    table, so they stay true whatever the current tree looks like -/
 def pinnedCore : RawTable :=
   [ ("assign", [.wr .l, .wr .p, .astore .t]),
     ("checkFast", [.ifB .selfNil false, .ret, .els, .rd .t, .ifB .opaque false, .ret, .els, .ret, .ifE, .ifE]),
@@ -216,36 +260,29 @@ def pinnedCore : RawTable :=
     ("parseRaw", parseRawPinned),
     ("MarshalJSON", marshalPinned) ]
 
-/-- the helpers of the synchronisation core are, in the current tree, what the pinned table says
-    (MarshalJSON and parseRaw are classified separately) -/
+/-- the helpers of the synchronisation core are, in the current tree, what the pinned table says -/
 theorem core_helpers_as_pinned :
     ["assign", "checkFast", "checkRaw", "isRaw", "loadt", "lock", "rlock", "runlock", "toString", "unlock"].all
       (fun fn => decide (facts.lookup fn = pinnedCore.lookup fn)) = true := by decide +kernel
 
-/-- which MarshalJSON the current tree has (read by the check: `unlocked` ⇒ the race is predicted) -/
-def marshalIsPinned : Bool := decide (facts.lookup "MarshalJSON" = some marshalPinned)
-
 set_option maxRecDepth 100000 in
-/-- the regenerated MarshalJSON is either the pinned, undisciplined one (finding C16-marshal-raw-
-    unlocked) or a disciplined one (then all theorems above cover it as well) -/
-theorem marshal_classified :
-    facts.lookup "MarshalJSON" = some marshalPinned ∨ disciplined facts "MarshalJSON" = true := by
-  decide +kernel
-
-set_option maxRecDepth 100000 in
-/-- the pinned MarshalJSON does not pass the discipline: it reads `(p,l)` after an unlocked isRaw() -/
-theorem marshal_pinned_not_disciplined : disciplined factsPinned "MarshalJSON" = false := by
+/-- with either pinned function put back into the current table the discipline check fails:
+    the pinned MarshalJSON reads `(p,l)` after an unlocked isRaw(); the pinned parseRaw overwrites
+    the whole node on a parse error -/
+theorem pinned_functions_not_disciplined :
+    disciplinedAt false (override facts "MarshalJSON" marshalPinned) "MarshalJSON" = false ∧
+    disciplinedAt true (override facts "parseRaw" parseRawPinned) "checkRaw" = false := by
   decide +kernel
 
 /-- witness schedule: goroutine 0 = MarshalJSON (loads t: raw), goroutine 1 = checkRaw → parseRaw
     up to and including `self.l = n.l` of assign, then goroutine 0 reads p (old) and l (new) -/
-def marshalWitness : List Nat := [0, 0] ++ List.replicate 13 1 ++ [0, 0]
+def marshalWitness : List Nat := [0, 0] ++ List.replicate 14 1 ++ [0, 0]
 
 set_option maxRecDepth 100000 in
-/-- NEGATION for the pinned program: on this 2-thread schedule MarshalJSON's read is TORN
-    (p of the raw text, l of the parsed value) and is a DATA RACE with assign's write.
-    Confirmed on the real code by `go build -race` (read in toString ← MarshalJSON, ast/encode.go:101,
-    vs write in assign ← parseRaw, ast/node.go:2040). -/
+/-- NEGATION for the pinned MarshalJSON: on this 2-thread schedule its read is TORN (p of the raw
+    text, l of the parsed value) and is a DATA RACE with assign's write.  Confirmed on the pinned
+    code by `go build -race` (read in toString ← MarshalJSON, ast/encode.go:101, vs write in
+    assign ← parseRaw, ast/node.go:2040); repaired by 45c02e9. -/
 theorem marshal_pinned_torn_and_racy :
     let s := run false (State.init [((progOf pinnedCore "MarshalJSON").getD .done, []),
                                     ((progOf pinnedCore "checkRaw").getD .done, [])]) marshalWitness
@@ -253,80 +290,18 @@ theorem marshal_pinned_torn_and_racy :
     (s.ths.map Th.view).head? = some (some (.raw, 0), some 1, some 0) := by
   decide +kernel
 
-set_option maxRecDepth 100000 in
-/-- the pinned statement is therefore FALSE for the documented list including MarshalJSON -/
-theorem no_torn_read_fails_for_pinned_marshal :
-    ¬ (∀ sched : List Nat,
-        ∀ th ∈ (run false (State.init [((progOf pinnedCore "MarshalJSON").getD .done, []),
-                                        ((progOf pinnedCore "checkRaw").getD .done, [])]) sched).ths,
-          th.torn = false) := by
-  intro h
-  have := marshal_pinned_torn_and_racy.2.1
-  have h0 := h marshalWitness
-  generalize run false _ marshalWitness = s at this h0
-  match s, this, h0 with
-  | ⟨_, [a, b]⟩, hm, h0 =>
-    simp only [List.map_cons, List.map_nil, List.cons.injEq, and_true] at hm
-    have := h0 a (List.mem_cons_self)
-    rw [hm.1] at this; cases this
-  | ⟨_, []⟩, hm, _ => cases hm
-  | ⟨_, [_]⟩, hm, _ => simp at hm
-  | ⟨_, _ :: _ :: _ :: _⟩, hm, _ => simp at hm
-
-set_option maxRecDepth 100000 in
-/-- F for the REPAIRED MarshalJSON: it passes the discipline, and so do the operations that call
-    it (Raw), hence the three statements hold for the complete documented list -/
-theorem marshal_repaired_disciplined :
-    ("MarshalJSON" :: documentedReads).all (fun fn => disciplinedAt false factsRepaired fn) = true := by
-  decide +kernel
-
-/-- the full statement for the repaired MarshalJSON (texts the parser accepts): any mix of ALL
-    documented reads incl. MarshalJSON -/
-theorem repaired_all_reads_safe (fns : List (String × List Bool))
-    (hf : ∀ f ∈ fns, f.1 ∈ "MarshalJSON" :: documentedReads) (sched : List Nat) :
-    let ps := fns.map fun f => ((progOf factsRepaired f.1).getD .done, f.2)
-    (run false (State.init ps) sched).sh.race = false ∧
-    (∀ th ∈ (run false (State.init ps) sched).ths, th.torn = false) ∧
-    (∀ th ∈ (run false (State.init ps) sched).ths, ∀ v g a b,
-      th.tv = some (v, g) → th.lg = some a → th.pg = some b → (v, a, b) = seqRaw ∨ (v, a, b) = seqParsed) :=
-  mix_safe false factsRepaired ("MarshalJSON" :: documentedReads) marshal_repaired_disciplined fns hf sched
-
-/-! ## documents the parser rejects (second finding): the error path of parseRaw -/
-
-/-- repaired (patches/C16-parse-error-assign.diff): under the lock the error node is published
-    through assign() as well (l, p, then the atomic store of t; m untouched), then return -/
-def parseRawRepaired : List Ev :=
-  [.callSet "lock" .none, .deferCall "unlock", .call "isRaw" .none, .ifB .raw true, .ret, .ifE,
-   .call "toString" .none, .ifB .param false, .pset "noLazy" true, .wrAll, .els, .ifB .lockVar false,
-   .pset "noLazy" true, .pset "loadOnce" true, .ifB .parseErr false, .ifE, .call "assign" .none, .ret,
-   .els, .wrAll, .ifE, .ifE, .ifB .parseErr false, .wrAll,
-   .ifE]
-
-def factsBothRepaired : RawTable := override factsRepaired "parseRaw" parseRawRepaired
-
-set_option maxRecDepth 100000 in
-/-- the regenerated parseRaw is either the pinned one (finding C16-parse-error-overwrites-node) or
-    one under which every documented read (except possibly MarshalJSON, classified above) is
-    disciplined also for texts the parser rejects -/
-theorem parseRaw_classified :
-    facts.lookup "parseRaw" = some parseRawPinned ∨
-    documentedReads.all (fun fn => disciplinedAt true facts fn) = true := by
-  decide +kernel
-
 /-- goroutine 1 reaches `m.Lock()` (it has read `self.m`), goroutine 0 converts, the parser fails,
     `*self = *newSyntaxError(..)` overwrites t (plainly) and m (nil); the deferred unlock() then
     finds `self.m == nil` and does not unlock -/
-def parseFailWitness : List Nat := List.replicate 5 1 ++ List.replicate 21 0
+def parseFailWitness : List Nat := List.replicate 5 1 ++ List.replicate 22 0
 
-/-- the state after that schedule -/
 def parseFailState : State :=
   run true (State.init [((progOf pinnedCore "checkRaw").getD .done, []),
                         ((progOf pinnedCore "checkRaw").getD .done, [])]) parseFailWitness
 
 set_option maxRecDepth 100000 in
-/-- NEGATION for a document the parser rejects (pinned parseRaw): a data race on `t` (plain write of
-    the error node vs the atomic load of a reader), and the write lock is left held by a finished
-    goroutine -/
+/-- NEGATION for the pinned parseRaw on a text the parser rejects: a data race on `t`, and the
+    write lock is left held by a finished goroutine; repaired by 7073139 -/
 theorem parse_failure_race_and_lock_leak :
     parseFailState.sh.race = true ∧ parseFailState.sh.w = some 0 ∧ parseFailState.sh.m = false ∧
     (parseFailState.ths.map fun th => match th.prog with | .done => 0 | .op .acqW _ => 1 | _ => 2) = [0, 1] := by
@@ -346,62 +321,22 @@ theorem parse_failure_deadlock : ∀ sched : List Nat, run true parseFailState s
     | j + 2 => exact step_oob (by rw [hl]; omega)
   exact run_fixed hstep
 
-set_option maxRecDepth 100000 in
-/-- with BOTH repairs every documented read incl. MarshalJSON is disciplined whether the parser
-    accepts the text or not -/
-theorem both_repairs_disciplined :
-    ("MarshalJSON" :: documentedReads).all (fun fn => disciplinedAt false factsBothRepaired fn) = true ∧
-    ("MarshalJSON" :: documentedReads).all (fun fn => disciplinedAt true factsBothRepaired fn) = true := by
-  decide +kernel
-
-/-- F for the code with both repairs: ALL documents (accepted by the parser or not), all
-    documented reads incl. MarshalJSON, any number of goroutines, all schedules -/
-theorem both_repairs_all_documents (pf : Bool) (fns : List (String × List Bool))
-    (hf : ∀ f ∈ fns, f.1 ∈ "MarshalJSON" :: documentedReads) (sched : List Nat) :
-    let ps := fns.map fun f => ((progOf factsBothRepaired f.1).getD .done, f.2)
-    (run pf (State.init ps) sched).sh.race = false ∧
-    (∀ th ∈ (run pf (State.init ps) sched).ths, th.torn = false) ∧
-    (∀ th ∈ (run pf (State.init ps) sched).ths, ∀ v g a b,
-      th.tv = some (v, g) → th.lg = some a → th.pg = some b → (v, a, b) = seqRaw ∨ (v, a, b) = seqParsed) := by
-  cases pf
-  · exact mix_safe false factsBothRepaired _ both_repairs_disciplined.1 fns hf sched
-  · exact mix_safe true factsBothRepaired _ both_repairs_disciplined.2 fns hf sched
-
-/-! ## construction facts read from the parser (children of a converted node) -/
-
-/-- ast/parser.go Parse: the two `newRawNode` calls of the load-once branches pass `lock = true`
-    (children created raw WITH their own mutex); lazy nodes are only built after both the
-    `noLazy` and the `loadOnce` tests failed -/
-theorem children_raw_nodes_own_mutex :
-    (facts.lookup "Parser.Parse").map constructions = some [.newRaw .tru, .newLazy, .newRaw .tru, .newLazy] ∧
-    (facts.lookup "newRawNode") = some [.ifB .param false, .mkMutex, .ifE, .ret] ∧
-    (facts.lookup "NewRawConcurrentRead").map constructions = some [.newRaw .tru] := by
-  decide +kernel
-
-/-- parseRaw converts a lockable node with `noLazy = loadOnce = true` and publishes through assign -/
-theorem parseRaw_lock_branch :
-    (facts.lookup "parseRaw").map (fun evs => evs.filter fun e =>
-        match e with | .pset _ _ | .call "assign" _ | .wrAll | .ifB .lockVar _ => true | _ => false) =
-      some [.pset "noLazy" true, .wrAll, .ifB .lockVar false, .pset "noLazy" true, .pset "loadOnce" true,
-            .call "assign" .none, .wrAll, .wrAll] ∧
-    facts.lookup "assign" = some [.wr .l, .wr .p, .astore .t] := by
-  decide +kernel
-
 /-! ## non-vacuity -/
 
 -- single-threaded runs: Raw on the fresh node returns the raw snapshot, a converting read the parsed one
 example : ((run false (State.init [((progOf facts "Raw").getD .abort, [])]) (List.replicate 60 0)).ths.map Th.view)
     = [(some (.raw, 0), some 0, some 0)] := by decide +kernel
-example : ((run false (State.init [((progOf facts "Interface").getD .abort,
-      [false, false, false, false, false, false, false, true])]) (List.replicate 120 0)).ths.map
-        fun th => (th.tv, th.lg)) = [(some (.parsed, 1), some 1)] := by decide +kernel
 -- the discipline is not trivially true: a mutator, a deprecated by-value accessor and a bare lock are rejected
 example : disciplined facts "Set" = false ∧ disciplined facts "IsRaw" = false ∧ disciplined facts "lock" = false := by
   decide +kernel
--- two racing converters: exactly one converts, both end with the parsed snapshot, no race
+-- two racing converters: exactly one converts (children, l, p, t), both end without a race
 example :
     let s := run false (State.init [((progOf facts "checkRaw").getD .abort, []), ((progOf facts "checkRaw").getD .abort, [])])
                ((List.replicate 6 0 ++ List.replicate 6 1 ++ List.replicate 40 0 ++ List.replicate 40 1))
-    s.sh.race = false ∧ s.sh.t = .parsed ∧ (s.sh.hist.filter (·.wr)).length = 3 := by decide +kernel
+    s.sh.race = false ∧ s.sh.t = .parsed ∧ (s.sh.hist.filter (·.wr)).length = 4 := by decide +kernel
+-- a read that builds the hash index lazily (seeded defect C16-lazy-index-in-get) is rejected
+example : disciplined (override facts "linkedPairs.Get"
+    [.rd .c, .ifB .opaque false, .call "linkedPairs.BuildIndex" .none, .ifE, .rd .c, .ret]) "Get" = false := by
+  decide +kernel
 
 end SonicSpec.Props.C16
